@@ -208,6 +208,27 @@ func (c *Ctx) classParse() *classParse {
 			cp.extRanges = extNames[local]
 		}
 	}
+	// carrier locals of the extraction function itself: members collected in locals that are stored into the node's
+	// fields once the loop is done (`singles, ranges := c.Chars, c.Ranges; for … { … }; c.Chars, c.Ranges = singles, ranges`)
+	ast.Inspect(cp.extractFd.Body, func(n ast.Node) bool {
+		as, ok := n.(*ast.AssignStmt)
+		if !ok || len(as.Lhs) != len(as.Rhs) || as.Pos() < cp.extract.End() {
+			return true
+		}
+		for k := range as.Lhs {
+			id, isLocal := as.Rhs[k].(*ast.Ident)
+			if !isLocal || extNames[id.Name] == "" {
+				continue
+			}
+			switch nospace(as.Lhs[k]) {
+			case cp.recv + ".Chars":
+				cp.extChars = extNames[id.Name]
+			case cp.recv + ".Ranges":
+				cp.extRanges = extNames[id.Name]
+			}
+		}
+		return true
+	})
 	// the first rune: the value of the first ReadRune of the iteration; the escape letter: the second one, read under
 	// first == '\\'; the members' container: where a non-backslash first rune is appended
 	for _, p := range cp.iter {
